@@ -6,7 +6,7 @@ import json, os, re, shutil, subprocess, sys
 SRC = sys.argv[1] if len(sys.argv) > 1 else "/tmp/seed-out"      # where the sub-agents left their work
 LETTERS = sys.argv[2] if len(sys.argv) > 2 else "AB"             # names given to the two changes of each property in seeded/
 # changes whose effect lies in the domain of another property's check (the sub-agent was given only its own property text)
-OWNER_OVERRIDE = {"C01-H": "C20", "C04-L": "C05", "C07-L": "C17", "C09-K": "C17", "C16-L": "C17", "C18-N": "C08"}
+OWNER_OVERRIDE = {"C01-H": "C20", "C04-L": "C05", "C07-L": "C17", "C09-K": "C17", "C16-L": "C17", "C18-N": "C08", "C14-P": "C20", "C18-O": "C05", "C18-P": "C05"}
 head = subprocess.check_output(["git","-C","/repo","rev-parse","--short","HEAD"]).decode().strip()
 os.makedirs("/verif/seeded", exist_ok=True)
 rows = []
